@@ -239,6 +239,7 @@ Section Codec.
     | QBool, JBool b => Ok (GBool b)
     | QBool, JNull => Ok (GBool false)
     | QTime, JStr s => match parse_time s with Some r => Ok (GTime r) | None => ErrOther end
+    | QTime, JNull => Ok (GTime (S_ "-6795364578871345152,0"))   (* the zero time.Time *)
     | QAny, j => Ok (GRaw j)
     | _, _ => ErrOther
     end.
